@@ -326,8 +326,8 @@ func (c *Ctx) finish(verifDir string, level string, seed int64, wall float64, pd
 		"resolved_anchors":    c.Resolved,
 		"notes":               c.Notes,
 		"exhaustive":          true,
-		"packages_loaded":     len(c.P.Pkgs),
-		"source_functions":    len(c.P.Funcs),
+		"packages_loaded":     progPkgs(c.P),
+		"source_functions":    progFuncs(c.P),
 		"not_covered":         pd.NotCovered,
 	}
 	for k, v := range extra {
@@ -355,4 +355,18 @@ func (c *Ctx) finish(verifDir string, level string, seed int64, wall float64, pd
 		return 1
 	}
 	return 0
+}
+
+func progPkgs(p *Prog) int {
+	if p == nil {
+		return 0
+	}
+	return len(p.Pkgs)
+}
+
+func progFuncs(p *Prog) int {
+	if p == nil {
+		return 0
+	}
+	return len(p.Funcs)
 }
